@@ -28,7 +28,8 @@ MODELLED = ("CFModel.resolve's condition handling (_ConditionResolver) and gatin
             "and tied by running both on the same templates")
 
 E2E = tplgen.E2ESurface("C02_order_independent / C02_equation / C02_resources_present_iff")
-SURFACES = {E2E.name: E2E}
+SEQ = tplgen.SequenceE2ESurface("C02_equation (condition values are a function of the template and THIS call's parameters)")
+SURFACES = {E2E.name: E2E, SEQ.name: SEQ}
 
 
 def refers_to_other(conds):
@@ -82,6 +83,8 @@ def cases(rng, tier, shard, nshards):
                 yield E2E, permuted(x, order)
         if k % 4 == 0:
             yield E2E, tplgen.gen_template(rng)
+        if k % 2 == 0:
+            yield SEQ, {"template": x["template"], "extras": [x["extra"], tplgen.vary_extra(rng, x), tplgen.vary_extra(rng, x)]}
 
 
 def extra_checks(tier, seed, stats, broken):
